@@ -129,7 +129,7 @@ def skeleton_f(prog):
     return out
 
 
-N = {"quick": 400, "thorough": 8000}
+N = {"quick": 800, "thorough": 8000}
 
 
 def shard_plan(tier):
